@@ -434,3 +434,33 @@ PROPS["C12"] = dict(
     assumptions=["registration (RegisterType/RegisterField) happens before the barrier; the property lists only parsing and resolving as concurrent operations"],
     design_ref="DESIGN.md section 5 C12",
 )
+
+PROPS["C03"] = dict(
+    pkg="crash", test="TestC03", engine="crash",
+    quick=dict(checks=2400, shards=4), thorough=dict(checks=480000, shards=16), timeout=dict(quick=900, thorough=6000),
+    nt_floor=dict(quick=1200, thorough=200000),
+    must_classes=["target=sdl", "target=exe", "target=value", "target=writer", "kind=exe-adversarial", "kind=exe-mutated", "kind=exe-soup", "kind=exe-valid-badvars",
+                  "kind=sdl-mutated", "kind=sdl-soup", "kind=sdl-valid", "kind=value-soup", "kind=bytes", "kind=deep-nesting", "kind=exe-corpus",
+                  "sdl-accepted", "sdl-printed-and-introspected", "exe-parsed", "exe-resolved-clean", "exe-resolved-with-errors", "value-parsed",
+                  "reader-fault-mode=0", "reader-fault-mode=1", "reader-fault-mode=2", "reader-fault-mode=3", "reader-fault-mode=4"],
+    fuzz=[("FuzzExe", 90), ("FuzzSDL", 90), ("FuzzValue", 60)],
+    level="exploration",
+    technique="robustness fuzzing: grammar-aware generation and mutation (token soup, mutated valid documents, hand-written semantic adversaries, hostile variable maps, failing readers, deep nesting) with a panic / hang / fatal-exit oracle; native coverage-guided go test -fuzz in the thorough tier",
+    rule="Four targets, one entry function each: (sdl) Root.ParseReader through a reader that may fail / short-read / return data with the error"
+         " / return zero-length reads at a drawn offset, then on success Root.SDL, every Type.SDL and full introspection; (exe)"
+         " ParseExecutableReader + Executable.String + ResolveExecutable + ResolveReader against three fresh roots (reflection with methods,"
+         " Resolver objects, root resolver) with a generated variable map of every Go kind (NaN, huge ints, structs, typed slices, nil"
+         " pointers) and operation names; (value) ParseValue then both writers at three indents; (writer) the writers on arbitrary Go"
+         " values and a failing io.Writer. Inputs: token soup over the grammars' tokens and hostile bytes (NUL, 0xFF, BOM, unterminated"
+         " strings, bad escapes), 1-3 mutations (truncate, delete, insert token, replace byte, duplicate range, swap bracket) of valid"
+         " requests / of generated well-formed schemas, 60 hand-written adversarial requests (fragment cycles, undefined spreads, omitted /"
+         " null / mistyped / extra arguments to method-backed fields, missing variable types, ...), raw bytes, nesting up to depth 4000."
+         " Oracle: the call returns within the watchdog (20 s, re-confirmed with 60 s) without panicking; a fatal runtime error (stack"
+         " overflow, concurrent map write) kills the worker and the driver reports it with the breadcrumb of the last input."
+         " Non-trivial = the input got past the first token / was parsed / is a request-shaped text.",
+    level_text="Generated-input search with a crash/hang oracle; the thorough tier adds coverage-guided native fuzzing (not pinnable by seed: its saved crasher is the reproducible unit).",
+    level_note="Trusted: the watchdog as an approximation of 'bounded time' (inputs are <= a few KiB except the deep-nesting class, whose depth is bounded so"
+               " that quadratic indentation in the printers stays far below the watchdog).",
+    assumptions=["each case builds fresh roots (lazy reflection binding is state)", "globals reset per case"],
+    design_ref="DESIGN.md section 5 C03",
+)
